@@ -25,13 +25,18 @@ for ID in sys.argv[1:]:
                         top = (fn, path, int(line)); break
                 if top is None and frames:
                     fn, path, line = frames[0]; top = (fn, path, int(line))
-                accs.append(top)
+                # an access made by harness code (directly, through an export shim, or through a
+                # generated getter called from harness code) is the harness's
+                def isH(pth): return where(pth) == 'harness' or 'zz_verif_export' in pth
+                nz = [f for f in frames if where(f[1]) != 'lib'] or frames
+                byHarness = bool(nz) and (isH(nz[0][1]) or (nz[0][1].endswith('.pb.go') and len(nz) > 1 and isH(nz[1][1])))
+                accs.append(top + (byHarness,) if top else None)
                 if len(accs) == 2: break
             reports.append(accs)
     seen = {}
     for accs in reports:
         key = ' <-> '.join(sorted(f'{a[0]} ({os.path.basename(a[1])}:{a[2]})' for a in accs if a))
-        cls = 'repo' if any(a and where(a[1]) == 'repo' for a in accs) else 'harness'
+        cls = 'repo' if accs and all(a and where(a[1]) == 'repo' and not a[3] for a in accs) else 'harness'
         seen.setdefault(key, {'class': cls, 'count': 0})['count'] += 1
     done = 0
     for f in glob.glob(W + '/out*.log'):
